@@ -20,7 +20,13 @@ def main():
         sys.exit(1)
     import suites
     mods = lib.load_repo(repo)
-    fs = suites.CHECKERS[r['checker']](ast.literal_eval(r['input']), mods, random.Random(0))
+    try:
+        fs = suites.CHECKERS[r['checker']](ast.literal_eval(r['input']), mods, random.Random(0))
+    except BaseException as e:   # noqa
+        if r['clause'] == 'unexpected-exception':
+            print(f"REPRODUCED {r['property']} unexpected-exception: the real code raised {type(e).__name__}: {e}")
+            sys.exit(1)
+        raise
     hit = [f for f in fs if f[1] == r['clause']]
     if hit:
         print(f"REPRODUCED {r['property']} {r['clause']}: {hit[0][2]}")
